@@ -6,6 +6,10 @@ VERIF = os.path.dirname(os.path.dirname(os.path.abspath(__file__)))
 props = [json.loads(l) for l in open(os.path.join(VERIF, "properties.jsonl"))]
 
 CLAIMS = {
+ "C05": dict(
+  text="Go's map iteration order is made an explicit parameter (a permutation of the entries). Proved in Coq for maps of any size: the three order-insensitive loop shapes found in risor - copy by key, collect-then-sort under a total order, commutative aggregate - give the same result for every visiting order. Tied to the source by a go/types translator that regenerates the list of every range-over-map site in the packages the embedding API depends on; the obligation that each existing site is classified is a kernel computation, so a new map iteration breaks it. The oracle compiles and evaluates generated and map/set-centred programs repeatedly in fresh VMs and fresh processes and compares marshalled bytes, results, error texts and captured output.",
+  note="Trusted: Coq kernel, the translator, and the hand classification of the 58 sites (coq/model/MapSites.v; seven sites are outside the property: I/O modules, a test helper, error-message choice, overlapping deny/override names). rand/time/scheduling are excluded by the property.",
+  technique="Rocq permutation-invariance theorems + regenerated site table obligation + repeated fresh-process oracle", ref="DESIGN.md section 5 C05"),
  "C18": dict(
   text="Theorems on a reduced store-transformer model of incremental evaluation (Coq, closed): for every program, every partition into consecutive pieces and every placement of rejected pieces, the incremental run ends in the whole-program store when no statement fails, and rejected pieces are inert (same store, same results of the other pieces) also in the presence of run-time failures. The oracle drives ONE compiler and ONE VM exactly as cmd/risor/repl does on random partitions of generated programs with parser-rejected, compiler-rejected and failing pieces inserted, and compares globals, values and print trace with the whole-program run / the history without the insert; 1100 consecutive expression pieces check the stack.",
   note="Trusted: Coq kernel, harness. The theorems assume what the oracle checks on the code: a rejected piece leaves no trace and a statement's effect depends only on the globals. Known finding: a compiler-rejected compound piece is not rolled back.",
